@@ -5,7 +5,7 @@
 set -u
 LABELS=${LABELS:-A B}
 SRCROOT=${SRCROOT:-/tmp/wt/}
-WT=/tmp/wt/confirm
+WT=${WT:-/tmp/wt/confirm}
 git -C /repo worktree remove --force $WT 2>/dev/null
 git -C /repo worktree add -q --detach $WT HEAD || exit 1
 for pid in "$@"; do
